@@ -95,6 +95,14 @@ pub fn programs(kind: &str, src: &[String]) -> Vec<(String, String)> {
         v.push(("top".into(), base.clone()));
         v.push(("top gaps".into(), with_gaps(&base, 1)));
         v.push(("top gaps2".into(), with_gaps(&render(kind, src, false, true, ""), 3)));
+        // statements that are one line in the source but wrap at the narrower widths, with 0 / 1 / 2 blank lines before them
+        let wide = base.lines().enumerate().map(|(i, l)| if l.trim_start().starts_with("//") || !l.contains(" = ") { l.to_string() } else {
+            let (lhs, rest) = l.split_once(" = ").unwrap();
+            let (val, cmt) = match rest.split_once(" //") { Some((v, c)) => (v.to_string(), format!(" //{c}")), None => (rest.to_string(), String::new()) };
+            match i % 3 { 0 => format!("{lhs} = [100, 200, 300, {val}] via x => x * 20{cmt}"), 1 => format!("{lhs} = {{alpha: {val}, beta: [{val}, {val}], gamma: \"long text\"}}{cmt}"), _ => format!("{lhs} = if {val} > 100 then {val} + 1000 else {val} - 1000{cmt}") }
+        }).collect::<Vec<_>>().join("\n");
+        v.push(("top wide".into(), wide.clone()));
+        v.push(("top wide gaps".into(), with_gaps(&wide, 2)));
         return v;
     }
     for (tc, fancy) in [(false, false), (true, false), (false, true)] {
@@ -108,6 +116,10 @@ pub fn programs(kind: &str, src: &[String]) -> Vec<(String, String)> {
             v.push((format!("{tag} in-record"), format!("w = {{\n  a: {},\n  b: 2\n}}", render(kind, src, tc, fancy, "  "))));
             v.push((format!("{tag} lambda"), format!("f = q => {c}")));
             v.push((format!("{tag} in-do"), format!("do {{\n  t = {}\n  return t\n}}", render(kind, src, tc, fancy, "  "))));
+            if kind != "do" {
+                v.push((format!("{tag} in-do eol"), format!("do {{\n  t = {} // after the statement, long enough to pass any margin there may be at all\n  u = 1 // short\n  return t\n}}", render(kind, src, tc, fancy, "  "))));
+                v.push((format!("{tag} top eol"), format!("z = {} // after the statement, long enough to pass any margin there may be at all\ny = 2", c)));
+            }
             // the container in every other expression position the grammar has
             v.push((format!("{tag} binop-left"), format!("z = {c} == 0")));
             v.push((format!("{tag} binop-right"), format!("z = 0 == {c}")));
@@ -143,7 +155,8 @@ pub fn replay(case: &J, thorough: bool, cli: Option<&str>, idx: usize) -> J {
         let mut runs: Vec<(String, Option<usize>, Result<String, String>)> = vec![];
         for w in widths {
             runs.push((format!("wasm w={:?}", w), *w, fmt_wasm(&prog, *w)));
-            if kind != "top" { runs.push((format!("library w={:?}", w), *w, fmt_library(&prog, *w))); }
+            // the library formatter takes one expression; programs of several statements go through the drivers only
+            if kind != "top" && !tag.ends_with("top eol") { runs.push((format!("library w={:?}", w), *w, fmt_library(&prog, *w))); }
         }
         if let Some(c) = cli { if idx % (if thorough { 2 } else { 6 }) == 0 || kind == "top" { runs.push(("cli".into(), None, fmt_cli(c, &prog, "e"))); } }
         for (driver, w, res) in runs {
@@ -155,7 +168,7 @@ pub fn replay(case: &J, thorough: bool, cli: Option<&str>, idx: usize) -> J {
             };
             let got = comments_of(&text);
             if got != want {
-                mism.push(json!({"prop":"C09","tag":class,"driver":driver,"src":prog,"out":text,"obs":format!("comments {:?} became {:?}", want, got)}));
+                mism.push(json!({"prop":"C09","tag":class,"driver":driver,"src":prog,"out":text,"want":want,"got":got,"obs":format!("comments {:?} became {:?}", want, got)}));
             }
             match syn::parse_program(&text, false) {
                 Ok(a1) => if a1 != ast0 { mism.push(json!({"prop":"C07","tag":class,"driver":driver,"src":prog,"out":text,"obs":"formatted text parses to a different program"})); },
